@@ -155,7 +155,11 @@ func ruleC03_2(c *Ctx) {
 	// required dependences of the returned key
 	ret := firstReturn(uk, 0)
 	deps := map[string]bool{}
+	prLive := c.An.Prune(uk, func(*Atom) (bool, bool) { return false, false })
 	for _, b := range uk.Blocks {
+		if !prLive.LiveBlock[b.Index] {
+			continue
+		}
 		r, ok := b.Instrs[len(b.Instrs)-1].(*ssa.Return)
 		if !ok || len(r.Results) != 1 {
 			continue
@@ -166,6 +170,9 @@ func ruleC03_2(c *Ctx) {
 		}
 		// skip the opaque early return
 		c.P.TraceBack(r.Results[0], TraceOpts{ThroughOps: true, ThroughExtern: true, NoParams: true, NoHeapFields: true}, func(v ssa.Value, _ []int) bool {
+			if in, ok := v.(ssa.Instruction); ok && in.Parent() == uk && in.Block() != nil && !prLive.LiveBlock[in.Block().Index] {
+				return false // computed in dead code
+			}
 			switch y := v.(type) {
 			case *ssa.FieldAddr:
 				if ptrTo(y.X.Type(), "net/url", "URL") {
